@@ -69,6 +69,11 @@ class NohBlackBoxEos(ExactSolver):
                 self.shocked_density = self.solution_data['solution'][0]
                 self.shocked_energy = self.solution_data['solution'][1]
                 self.shock_speed = self.solution_data['solution'][2]
+                if not (self.shock_speed > 0 and self.shocked_density > 0):
+                    # the jump system has a second, non-physical root (rho = 0, D = u0 < 0)
+                    self.shock_speed = self.shocked_density = None
+                    raise ValueError("Newton iteration converged to the non-physical root D = u0; "
+                                     "use set_new_solver_initial_guess() with a guess closer to the shocked state")
                 self.shocked_pressure = self.eos.P(self.shocked_density, self.shocked_energy)
                 self.shocked_energy = self.solution_data['solution'][1]
                 self.shock_speed = self.solution_data['solution'][2]
